@@ -144,6 +144,45 @@ func shapeVisible(be string) rl.Case {
 		Sched:   cat(rep(0, 4), rep(1, 5), rep(2, 8), rep(0, 4), rep(3, 1), rep(4, 5), rep(5, 8), rep(6, 8))}
 }
 
+// Response cache enabled: the same stamped questions before and after a successful reload of
+// the SAME backend (RocksDB: catch-up in place; partial reload, or a full reload naming the
+// served path), next to a question never asked before: a cached key must be answered from the
+// new generation too (the purge must not depend on the *db.DB object having changed).
+func shapeCachedSeq(fullSame bool) func(string) rl.Case {
+	return func(be string) rl.Case {
+		reload, cls := partial(), "cached-catchup-seq"
+		if fullSame {
+			reload, cls = full(0), "cached-samepath-seq"
+		}
+		geo := func(c int) rl.ThreadSpec { return q(c, "geo.example.com.", 1, ipLoc2) }
+		nx := func(c int) rl.ThreadSpec { return q(c, "nx.example.com.", 1, ipLoc1) }
+		txt := func(c int) rl.ThreadSpec { return q(c, "txt.example.com.", 16, ipLoc1) }
+		th := []rl.ThreadSpec{
+			mx(1), geo(2), nx(1), mx(1), // 0-3: cached on generation 1 (3 is a hit)
+			env(0, gen(5)), reload, // 4, 5
+			mx(1), txt(1), geo(2), nx(1), mx(2), // 6-10: cached keys and a never-asked key; 10 hits the new entry
+			reload, mx(1), txt(2), // 11-13: a reload that changes nothing still purges
+		}
+		var sched []int
+		for i := range th {
+			sched = append(sched, rep(i, 8)...)
+		}
+		return rl.Case{Kind: "sched", Class: cls, Cfg: rl.Config{Backend: be, Cache: true}, Disk: smallDisk(0), P0: 0, Threads: th, Sched: sched}
+	}
+}
+
+// the same with queries in flight across the catch-up that cannot leave anything stale behind:
+// one parked right after acquiring its reader (all its lookups see the new content), one parked
+// before its write (its entry was inserted before the purge)
+func shapeCachedSched(be string) rl.Case {
+	geo := func(c int) rl.ThreadSpec { return q(c, "geo.example.com.", 1, ipLoc2) }
+	www := func(c int) rl.ThreadSpec { return q(c, "www.example.com.", 1, ipLoc1) }
+	th := []rl.ThreadSpec{mx(1), www(2), env(0, gen(5)), partial(), mx(1), www(2),
+		q(1, "txt.example.com.", 16, ipLoc1), geo(3), geo(3)}
+	return rl.Case{Kind: "sched", Class: "cached-catchup-sched", Cfg: rl.Config{Backend: be, Cache: true}, Disk: smallDisk(0), P0: 0, Threads: th,
+		Sched: cat(rep(0, 8), rep(1, 1), rep(7, 7), rep(2, 1), rep(3, 5), rep(1, 7), rep(7, 1), rep(4, 8), rep(5, 8), rep(6, 8), rep(8, 8))}
+}
+
 // ---------------------------------------------------------------- random schedules
 
 var queryMenu = []func(c int) rl.ThreadSpec{
@@ -340,14 +379,21 @@ func generate(a *hlib.Args) []rl.Case {
 	backends := []string{"cdb", "rdb2", "rdb1"}
 	for _, be := range backends {
 		for _, f := range []func(string) rl.Case{shapeF5, shapeF23, shapeF24, shapeFollow, shapeFailures,
-			shapeFailedThenPartial, shapeTimeoutFull, shapeBlocked, shapeVisible} {
+			shapeFailedThenPartial, shapeTimeoutFull, shapeBlocked, shapeVisible,
+			shapeCachedSeq(false), shapeCachedSeq(true), shapeCachedSched} {
 			if be == "rdb1" && !thorough {
 				c := f(be)
-				if c.Class != "f5-shape" {
+				if c.Class != "f5-shape" && c.Class != "cached-catchup-seq" && c.Class != "cached-samepath-seq" {
 					continue
 				}
 			}
-			cases = append(cases, f(be))
+			c := f(be)
+			if be == "cdb" && c.Class == "cached-catchup-sched" {
+				// with cdb the parked query holds the OLD backend and inserts after the purge:
+				// that is the F6 shape, which belongs to C12
+				continue
+			}
+			cases = append(cases, c)
 		}
 	}
 	// 3. seeded random schedules
